@@ -148,6 +148,19 @@ inline bool mutate_tree(std::vector<Node> &roots, Rng &r, size_t hardMax, const 
     // bias toward deeper nodes a little: pick two, keep the deeper one half of the time
     Ref a = refs[r.below(refs.size())], b = refs[r.below(refs.size())];
     Ref t = (b.depth > a.depth && r.below(2)) ? b : a;
+    if (r.below(10) < 3) {
+        // ... and toward the tail of the input: over-reads only become visible to ASan when the malformed TLV is
+        // the last thing in the buffer, so a node on the right-most path (or its left neighbour) is chosen often
+        std::vector<Ref> path; std::vector<Node> *v = &roots; int d = 0;
+        while (!v->empty() && d < 200) {
+            path.push_back(Ref{ v, v->size() - 1, d });
+            if (v->size() > 1) path.push_back(Ref{ v, v->size() - 2, d });
+            Node &last = v->back();
+            if (!last.parsedKids) break;
+            v = &last.kids; d++;
+        }
+        if (!path.empty()) t = path[r.below(path.size())];
+    }
     Node &nd = (*t.vec)[t.idx];
     Bytes cur; ser(nd, cur);
     size_t real = cur.size();
@@ -156,27 +169,40 @@ inline bool mutate_tree(std::vector<Node> &roots, Rng &r, size_t hardMax, const 
     size_t total = 0; { Bytes all; ser_list(roots, all); total = all.size(); }
     size_t maxOut = hardMax < total + total / 2 + 1024 ? hardMax : total + total / 2 + 1024;
     unsigned op = (unsigned) r.below(donor ? 16 : 15);
-    if (op == 14) { // consistent tail truncation: the right-most leaf (of the whole input, or of the chosen subtree) keeps
-                    // only its first j bytes while every ancestor is re-encoded with the length that is really present -
-                    // the inner TLV claims more than its enclosing SEQUENCE / the buffer holds.
-        Node *leaf = r.below(2) ? &roots.back() : &nd;
-        int guard = 0;
-        while (leaf->parsedKids && !leaf->kids.empty() && guard++ < 200) leaf = &leaf->kids.back();
-        if (leaf->raw) return false;
-        Bytes b; ser(*leaf, b);
-        if (b.size() < 2) return false;
-        size_t j;
-        switch (r.below(4)) { case 0: j = 1; break; case 1: j = 2; break; case 2: j = b.size() - 1; break; default: j = 1 + r.below(b.size() - 1); }
-        if (j >= b.size()) j = b.size() - 1;
-        Node blob; blob.raw = true; blob.content.assign(b.begin(), b.begin() + j);
-        *leaf = std::move(blob);
+    if (op == 14) { // consistent tail truncation: cut c bytes off the END of the encoding (of the whole input, or of the
+                    // chosen subtree) and re-encode every ancestor with the length that is really present, so the
+                    // last TLV(s) claim more than their enclosing SEQUENCE / the buffer holds.
+        Node *top = r.below(2) ? &roots.back() : &nd;
+        Bytes tb; ser(*top, tb);
+        if (tb.size() < 3) return false;
+        size_t lim = tb.size() - 2 < 40 ? tb.size() - 2 : 40;
+        size_t c = 1 + (r.below(3) == 0 ? r.below(lim) : r.below(lim < 8 ? lim : 8));
+        for (int guard = 0; c > 0 && guard < 400; guard++) {
+            // descend to the right-most leaf, remembering its parent vector
+            Node *cur = top; std::vector<Node> *pv = nullptr;
+            while (cur->parsedKids && !cur->kids.empty()) { pv = &cur->kids; cur = &cur->kids.back(); }
+            if (cur == top && !(cur->parsedKids && cur->kids.empty())) {
+                // top itself is the leaf: keep a prefix of its encoding
+                Bytes b; ser(*cur, b);
+                if (b.size() <= c) return false;
+                Node blob; blob.raw = true; blob.content.assign(b.begin(), b.end() - c); *cur = std::move(blob); c = 0; break;
+            }
+            Bytes b; ser(*cur, b);
+            if (b.size() <= c) { // drop the whole trailing element and continue with what is left to cut
+                c -= b.size();
+                if (pv) pv->pop_back(); else return false;
+                if (b.empty()) break;
+            } else {
+                Node blob; blob.raw = true; blob.content.assign(b.begin(), b.end() - c); *cur = std::move(blob); c = 0;
+            }
+        }
         return true;
     }
     if (op == 15) op = 14; // becomes the splice case below (donor present)
     if (op == 13) { // pad one primitive value so that the OUTERMOST TLV's content length lands on a 15/16-bit boundary
         static const size_t targets[] = { 0x7fff, 0x8000, 0x8001, 0xfffb, 0xfffc, 0xfffd, 0xfffe, 0xffff, 0x10000, 0x10001, 0x10004 };
         size_t want = targets[r.below(sizeof targets / sizeof targets[0])];
-        if (nd.parsedKids || nd.raw || roots.empty() || want + 16 > hardMax) return false;
+        if (nd.parsedKids || nd.raw || roots.empty() || want + 16 > hardMax || r.below(3) != 0) return false;
         uint8_t fill = nd.content.empty() ? 'a' : nd.content[nd.content.size() - 1];
         if (fill < 0x20 || fill > 0x7e) fill = 'a';
         for (int it = 0; it < 4; it++) {
@@ -234,8 +260,10 @@ inline bool mutate_tree(std::vector<Node> &roots, Rng &r, size_t hardMax, const 
         nd = std::move(blob);
         return true; }
     case 8: { // real growth / shrink of a value (bytes present, lengths consistent)
-        static const size_t sizes[] = { 0, 1, 2, 127, 128, 129, 255, 256, 257, 1000, 32767, 32768, 65534, 65535, 65536, 65537, 65540, 70000 };
-        size_t want = sizes[r.below(sizeof sizes / sizeof sizes[0])];
+        // small sizes mostly; the >= 32 KiB ones (16-bit wrap with the bytes really present) only now and then, because
+        // every huge input that reaches new code stays in the corpus and slows all later executions down
+        static const size_t sizes[] = { 0, 1, 2, 3, 8, 20, 21, 64, 127, 128, 129, 255, 256, 257, 1000, 32767, 32768, 65534, 65535, 65536, 65537, 65540, 70000 };
+        size_t want = sizes[r.below(r.below(6) == 0 ? sizeof sizes / sizeof sizes[0] : 15)];
         if (want + total + 16 > hardMax) want = r.below(maxOut > total + 32 ? maxOut - total - 32 : 1);
         if (nd.parsedKids && !nd.kids.empty()) {
             Node k = nd.kids[r.below(nd.kids.size())]; Bytes kb; ser(k, kb);
